@@ -180,26 +180,28 @@ def det (kinds : List Kind) (src : Src) (n : Nat) : Tr := pipeTr kinds (src.pfx 
 /-- a request for `k` outputs can be answered: `k` items are determined, or the end is -/
 def Tr.answers (d : Tr) (k : Nat) : Bool := d.items.length ≥ k || d.term != .more
 
-/-- least `n ≤ bound` (searched upwards from `n`) whose prefix satisfies `p`; `bound` if none -/
+/-- least `n ≥ start` that satisfies `p` or reaches `bound` (`fuel` bounds the search) -/
 def leastFrom (p : Nat → Bool) (bound : Nat) : Nat → Nat → Nat
   | 0, n => n
   | fuel + 1, n => if n ≥ bound || p n then n else leastFrom p bound fuel (n + 1)
 
-/-- number of source items needed for `k` outputs -/
-def need (kinds : List Kind) (src : Src) (bound k : Nat) : Nat :=
-  leastFrom (fun n => (det kinds src n).answers k) bound bound 0
+/-- number of source items needed for `k` outputs, given that `start` were pulled already -/
+def needFrom (kinds : List Kind) (src : Src) (bound k start : Nat) : Nat :=
+  leastFrom (fun n => (det kinds src n).answers k) bound (bound + 1) start
 
 /-- number of source items needed until the end of the stream is determined -/
-def needEnd (kinds : List Kind) (src : Src) (bound : Nat) : Nat :=
-  leastFrom (fun n => (det kinds src n).term != .more) bound bound 0
+def needEndFrom (kinds : List Kind) (src : Src) (bound start : Nat) : Nat :=
+  leastFrom (fun n => (det kinds src n).term != .more) bound (bound + 1) start
 
-/-- source items `glomit` itself pulls: each `windowed(size)` stage asks the chain below it
-    for `size - 1` items -/
-def primeNeed (src : Src) (bound : Nat) : List Kind → List Kind → Nat
-  | _, [] => 0
-  | before, k :: after =>
-    Nat.max (if k.primeCount = 0 then 0 else need before src bound k.primeCount)
-      (primeNeed src bound (before ++ [k]) after)
+/-- source items `glomit` itself pulls: each `windowed(size)` stage, when it is built, asks
+    the chain below it (`before`) for `size - 1` items -/
+def primeScan (src : Src) (bound : Nat) : List Kind → List Kind → Nat → Nat
+  | _, [], p => p
+  | before, k :: after, p =>
+    primeScan src bound (before ++ [k]) after
+      (if k.primeCount = 0 then p else needFrom before src bound k.primeCount p)
+
+def primeNeed (kinds : List Kind) (src : Src) (bound : Nat) : Nat := primeScan src bound [] kinds 0
 
 /-- `glomit` raises when a `windowed` stage, advancing its tees, meets an error of the
     chain below it -/
@@ -238,12 +240,12 @@ def srcLen : Src → Nat
 def checkTake (kinds : List Kind) (src : Src) (k : Nat) (o : TakeObs) : Bool :=
   let n := srcLen src
   match primeErr src n [] kinds with
-  | some e => o.items.isEmpty && o.fin == .raised e && o.pulls ≤ primeNeed src n [] kinds
+  | some e => o.items.isEmpty && o.fin == .raised e && o.pulls ≤ primeNeed kinds src n
   | none =>
     let full := det kinds src n
     o.items == full.items.take k &&
     o.fin == (if full.items.length ≥ k then .gotK else finOfTerm full.term) &&
-    o.pulls ≤ Nat.max (need kinds src n k) (primeNeed src n [] kinds)
+    o.pulls ≤ needFrom kinds src n k (primeNeed kinds src n)
 
 /-- `Iter.all()`: every item, then the end -/
 def checkAll (kinds : List Kind) (src : Src) (o : TakeObs) : Bool :=
@@ -254,7 +256,7 @@ def checkAll (kinds : List Kind) (src : Src) (o : TakeObs) : Bool :=
     let full := det kinds src n
     o.fin == finOfTerm full.term &&
     (o.fin != .exhausted || o.items == full.items) &&
-    o.pulls ≤ Nat.max (needEnd kinds src n) (primeNeed src n [] kinds)
+    o.pulls ≤ needEndFrom kinds src n (primeNeed kinds src n)
 
 inductive FirstObs where
   | found (v : V)
@@ -296,13 +298,13 @@ def checkFirst (kinds : List Kind) (src : Src) (key : Fn) (o : FirstObs) (pulls 
   | some e => o == .raised e
   | none =>
     let full := det kinds src n
-    let pn := primeNeed src n [] kinds
+    let pn := primeNeed kinds src n
     match firstRef key full.items full.term 0 with
-    | .found v i => o == .found v && pulls ≤ Nat.max (need kinds src n i) pn
-    | .keyRaised _ i => (match o with | .raised _ => true | _ => false) && pulls ≤ Nat.max (need kinds src n i) pn
+    | .found v i => o == .found v && pulls ≤ needFrom kinds src n i pn
+    | .keyRaised _ i => (match o with | .raised _ => true | _ => false) && pulls ≤ needFrom kinds src n i pn
     | .atEnd t =>
       o == (match t with | .eof => .default | .err e => .raised e | .more => .oof) &&
-      pulls ≤ Nat.max (needEnd kinds src n) pn
+      pulls ≤ needEndFrom kinds src n pn
 
 /-- builder purity, on observations of the implementation alone: the re-used prefix spec
     has the same repr and the same behaviour before and after specs were derived from it,
